@@ -681,7 +681,7 @@ func main() {
 	r.Require("pre_cancelled_runs_judged", 60)
 	r.Require("mid_run_cancellations_judged", int64(r.Pick(800, 40000)))
 	r.Require("entry_points", 70)
-	r.Require("stream_cases", int64(r.Pick(15000, 200000)))
+	r.Require("stream_cases", int64(r.Pick(15000, 25000)))
 	r.Finish()
 }
 
